@@ -11,7 +11,7 @@
 -/
 import FcProofs.Lemmas.LexsortSeg
 import FcProofs.Lemmas.LexsortRuns
-namespace Fc
+namespace Fc.C02
 variable {α : Type}
 
 /-- the adjacent-pair test along a list, with the trailing `False` -/
@@ -255,4 +255,4 @@ theorem fuzzyLexSortBy_eq_segSort {P : α → Prop} {srt : (α → Int) → List
     rw [main]
     rfl
 
-end Fc
+end Fc.C02
